@@ -80,6 +80,23 @@ Check (invariance_distinct_first_degree : forall H fuel df pl pi d1 d2 b1 i1 b2 
   impl_model H fuel df pl d1 = Ok (b1, i1) ->
   impl_model H fuel df pl d2 = Ok (b2, i2) ->
   b1 = b2).
+(* (6c') invariance under ANY relabelling (same quad order), for every hash function, provided no
+   hash path list of step 5 contains two results with the same hash (top_ties = false): the run
+   on the renamed dataset succeeds with the same quads and the identifier map composed with pi *)
+Check (relabel_with_rename : forall H v fuel df pl pi d qs i1,
+  v_once v = true -> supported d = true -> inj_on pi (bnodes d) ->
+  top_ties H v fuel df pl d = false ->
+  relabel_with H v fuel df pl d = Ok (qs, i1) ->
+  relabel_with H v fuel df pl (map (rename_q pi) d) = Ok (qs, rn pi i1)).
+Check (invariance_under_relabelling : forall H fuel df pl pi d b1 i1,
+  Forall wf_quad d -> Forall wf_quad (map (rename_q pi) d) ->
+  inj_on pi (bnodes d) ->
+  top_ties H (mkVar true true) fuel df pl d = false ->
+  impl_model H fuel df pl d = Ok (b1, i1) ->
+  exists i2, impl_model H fuel df pl (map (rename_q pi) d) = Ok (b1, i2)).
+Check (w28_has_a_top_tie : top_ties toyH (mkVar true true) 20 (Some 1000) (Some 6) w28 = true).
+Check (no_top_ties_nonvacuous :
+  top_ties toyH (mkVar true true) 20 (Some 1000) (Some 6) path4 = false).
 (* (6d) unrestricted invariance is FALSE, for RDFC-1.0 itself (DESIGN.md section 4 row 28); the
    statement with the explicit no-ties hypothesis is kept as a definition, not proved *)
 Check (invariance_refuted_for_three_blank_quads : ~ invariance_statement).
@@ -122,6 +139,8 @@ Print Assumptions b2q_spec_prefix.
 Print Assumptions h1d_invariant.
 Print Assumptions first_degree_invariant.
 Print Assumptions invariance_distinct_first_degree.
+Print Assumptions relabel_with_rename.
+Print Assumptions invariance_under_relabelling.
 Print Assumptions invariance_refuted_for_three_blank_quads.
 Print Assumptions no_ties_nonvacuous.
 Print Assumptions hnd_t_erase.
